@@ -462,7 +462,7 @@ def parse_facebook_url(url, allow_relative_urls=False):
     if splitted.path:
         parts = pathsplit(splitted.path)
 
-        if not parts[0].endswith(".php"):
+        if parts and not parts[0].endswith(".php"):
             return FacebookHandle(parts[0])
 
     return None
